@@ -747,8 +747,18 @@ class VerifyingBase(LookupBaseFallback):  # noqa F821
         # are done here) is at least as recent as what we record. The
         # other way around, results computed between the two steps could
         # be recorded as valid for generations they have never seen.
-        verify_ro = self._registry.ro[1:]
-        verify_generations = [r._generation for r in verify_ro]
+        try:
+            verify_ro = self._registry.ro[1:]
+            verify_generations = [r._generation for r in verify_ro]
+        except BaseException:
+            # We cannot tell what the caches are good for: drop them and
+            # remember nothing, so that the next lookup verifies anew.
+            LookupBaseFallback.changed(  # noqa F821
+                self, originally_changed
+            )
+            self._verify_ro = ()
+            self._verify_generations = None
+            raise
         LookupBaseFallback.changed(self, originally_changed)  # noqa F821
         self._verify_ro = verify_ro
         self._verify_generations = verify_generations
